@@ -739,6 +739,9 @@ def run(ctx, config='rel-all'):
     # ---- R14 an iterator's size_hint sizes reservations only (std behaves identically for iterators whose hints lie)
     from . import hinttaint
     hinttaint.check(ctx, db, 'R14', ('src/collections/vec.rs', 'src/collections/raw_vec.rs', 'src/collections/collect_in.rs'))
+    # ---- R15 the owning iterator types are built only by the constructors whose formulas are checked above
+    from . import ownership
+    ownership.constructors(ctx, db, 'R15')
     # ---- R10 the exported vec! macro (no MIR inside the crate: analysed on its expansion in a client probe)
     if config == 'rel-all':
         from . import macros
